@@ -87,6 +87,14 @@ def scenarios(run):
                           ('SendHeaders', 1, [], 0, True, None, None, None), ('SendHeaders', 1, [], 0, True, None, None, None)]))
         out.append((cfg, [('Initiate',), ('SendHeaders', 1, t2.REQ, 0, False, 16, 0, False), ('SendHeaders', 3, t2.REQ, 0, False, 300, None, None),
                           ('SendHeaders', 3, t2.REQ, 0, False, 10, 3, None)]))
+        # sends on a stream whose window the peer made negative (INITIAL_WINDOW_SIZE lowered after DATA was sent): empty and non-empty DATA
+        RX = lambda *fs: ('Receive', [(f, None, {}) for f in fs])
+        sid = 1
+        opening = [('SendHeaders', 1, t2.REQ, 0, False, None, None, None)] if client else \
+                  [RX(('Headers', 1, False, None, ('Decoded', t2.REQ))), ('SendHeaders', 1, t2.RESP, 0, False, None, None, None)]
+        out.append((cfg, [('Initiate',), RX(('Settings', False, []))] + opening +
+                         [('SendData', sid, 1000, False, None), RX(('Settings', False, [(4, 10)])), ('LocalWindow', sid),
+                          ('SendData', sid, 0, False, None), ('SendData', sid, 1, False, None), ('SendData', sid, 0, True, None), ('EndStream', sid)]))
     return out
 
 
